@@ -144,7 +144,7 @@ TDrop == \/ /\ Ev.e = "drop_begin" /\ dropping' = TRUE /\ dropFailed' = FALSE
             /\ ack' = IF ~dropFailed THEN [k \in Keys |-> MaxN(ack[k], fl[Len(fl)][k])] ELSE ack
             /\ real' = NoReal /\ snap' = NoSnap
             /\ Same(<<dur, pend, gens, hist, done, fl, now, conf, dropFailed>>)
-         \/ /\ Ev.e \in {"abandon", "refill", "reads", "fault", "heal"}
+         \/ /\ Ev.e \in {"abandon", "refill", "reads", "fault", "heal", "autorej"}
             /\ real' = NoReal /\ snap' = NoSnap
             /\ Same(<<dur, pend, gens, hist, done, ack, fl, now, conf, dropping, dropFailed>>)
 
@@ -299,6 +299,10 @@ HealWorks == (l > 1 /\ LastEv.e = "heal") => LastEv.ok
 RepairsSafe == Len(pend) > 0 =>
                  LET w == pend[Len(pend)] IN
                  w.kind = "d" => (w.at .. (w.at + Len(w.c) - 1)) \cap live0 = {}
+
+\* C12 across crash recovery: an automatically versioned write is never rejected as older (the
+\* drivers of this engine never pin a key at the maximum timestamp)
+AutoNeverOlder == ~(l > 1 /\ LastEv.e = "autorej")
 
 NoUnknownRegion == \A i \in 1 .. Len(pend) : pend[i].kind # "x"
 
